@@ -94,7 +94,7 @@ func vsimRun(r *sim.Run) {
 		var p *work.Production
 		var err error
 		r.Guard("packager", func() {
-			p, err = work.Package(r, work.PackOpts{MaxTracks: 1, MaxSegs: 4, MaxFrags: 3, MaxSamples: 8, Foreign: t.Bool(), Styp: 1})
+			p, err = work.Package(r, work.PackOpts{MaxTracks: 1, MaxSegs: 4, MaxFrags: 3, MaxSamples: 8, Foreign: t.Bool(), Styp: 1, SplitTruns: true})
 		})
 		if err != nil || p == nil {
 			r.Violate("packager-error", "a documented-valid API history failed: %v", err)
